@@ -1,8 +1,9 @@
 (* C15 — property theorems.  Statements, `exact` proofs, non-vacuity examples and Print Assumptions only.
    "Every way the work can be split" = every binary split tree with admissible split points (Model/Producer.v);
    split_at / next / len of the two producers are the definitions GENERATED from src/utils.rs (Gen/Grid.v). *)
+From Coq Require Import String.
 From Coq Require Import List Arith Bool Lia Reals.
-From SpdVerif Require Import Base.GridOps Gen.Grid Model.Grid Model.Producer Proofs.C15_generic Proofs.C15_inst.
+From SpdVerif Require Import Base.GridOps Gen.Grid Model.Grid Model.Producer Proofs.C15_generic Proofs.C15_inst Model.C15_Float Proofs.C15_float Gen.C15_Reductions Proofs.C15_sites Model.C15_Bridge Proofs.C15_bridge.
 Import ListNotations.
 
 (* 1. 2-D grids: every split tree delivers the same points in the same positions — for EVERY carrier, hence bit-exactly *)
@@ -20,6 +21,21 @@ Proof. exact run1d_exact_real. Qed.
 Theorem C15_1d_count_exact : forall T (O : ops T) (s e : T) (n : nat) (t : tree), admissible 1 t n ->
   exists l, run (prod1d O) t (root1d s e n) = Ok l /\ length l = n.
 Proof. exact (@run1d_length). Qed.
+
+(* 2''. the float clause, PROVED under a stated guard: with every + - * / of the generated Steps::value and split_at rounded to
+   nearest (FLX-53 = binary64 absent overflow and underflow; Flocq round_FLT_FLX), any admissible split tree of depth D delivers,
+   at every position, a value within ((1+4u)^(D+1) - 1) max(|start|,|end|) of the exact sequential value (u = 2^-53, n-1 < 2^53).
+   Numerically <= 1e-14 for D <= 20 and <= 3e-14 for D <= 64 (rayon's bridge halves the length: D <= log2 n <= 64).
+   _partial: the guard "no intermediate result overflows or is subnormal" is assumed (by working in FLX), and the bound is
+   relative to the range scale max(|start|,|end|), not to each value. *)
+Theorem C15_1d_float_bound_partial : forall (s e : R) (n : nat) (t : tree), (INR (n - 1) < 9007199254740992)%R -> admissible 1 t n ->
+  exists l, run (prod1d FXops) t (root1d s e n) = Ok l /\ length l = n /\
+    forall i, i < n -> (Rabs (nth i l 0 - steps_value Rops s e n i) <= ((1 + 4 * u53) ^ S (depth t) - 1) * Mx s e)%R.
+Proof. exact (fun s e n t Hd => run1d_float_bound s e n Hd t). Qed.
+
+Theorem C15_1d_float_bound_numbers : forall k,
+  (k <= 20 -> ((1 + 4 * u53) ^ S k - 1 <= 1e-14)%R) /\ (k <= 64 -> ((1 + 4 * u53) ^ S k - 1 <= 3e-14)%R).
+Proof. exact depth_bound_numeric. Qed.
 
 (* 3. the ExactSizeIterator::len contract, for every producer reachable by splitting *)
 Theorem C15_len :
@@ -72,6 +88,45 @@ Proof.
          (fun s e n f t H => reduce1d s e n op e0 f t Ha Hl Hr H)).
 Qed.
 
+(* 5'. enumerate().map(f).sum() — hom_rate over the 2-D grid, simpson2d's two nested 1-D ranges *)
+Theorem C15_reduce_enumerate : forall B (op : B -> B -> B) (e0 : B),
+  (forall x y z, op x (op y z) = op (op x y) z) -> (forall x, op e0 x = x) -> (forall x, op x e0 = x) ->
+  (forall T (O : ops T) x0 x1 nx y0 y1 ny (f : nat * (T * T) -> B) t, admissible 0 t (nx * ny) ->
+     run_reduce (penum (prod2d O x0 x1 nx y0 y1 ny)) op e0 f t (0, root2d nx ny) =
+     Ok (fold_left (fun acc x => op acc (f x)) (combine (seq 0 (nx * ny)) (seq2d O x0 x1 nx y0 y1 ny)) e0)) /\
+  (forall (s e : R) n (f : nat * R -> B) t, admissible 1 t n ->
+     run_reduce (penum (prod1d Rops)) op e0 f t (0, root1d s e n) =
+     Ok (fold_left (fun acc x => op acc (f x)) (combine (seq 0 n) (seq1d Rops s e n)) e0)).
+Proof.
+  exact (fun B op e0 Ha Hl Hr =>
+    conj (fun T O x0 x1 nx y0 y1 ny f t H => reduce_enum2d O x0 x1 nx y0 y1 ny op e0 f t Ha Hl Hr H)
+         (fun s e n f t H => reduce_enum1d s e n op e0 f t Ha Hl Hr H)).
+Qed.
+
+(* 5''. Simpson: from the GENERATED branch pieces of math::integration::simpson — the `then` branch is sequential, the `else` branch
+   parallel, both run the same closure chain over the same index range, which is all d+1 nodes 0..d; hence under any split tree
+   of rayon's range producer the parallel branch equals the sequential branch's fold (in any monoid; floats: 1e-12 measured) *)
+Theorem C15_simpson_parallel_is_sequential : forall B (op : B -> B -> B) (e0 : B) (g : nat -> B) d t,
+  (forall x y z, op x (op y z) = op (op x y) z) -> (forall x, op e0 x = x) -> (forall x, op x e0 = x) ->
+  admissible 0 t (range_count (simpson_else_range d)) ->
+  run_reduce prod_range op e0 g t (range_root (simpson_else_range d)) =
+  Ok (fold_left (fun acc n => op acc (g n)) (range_list (simpson_then_range d)) e0) /\
+  range_list (simpson_then_range d) = seq 0 (S d).
+Proof. exact (@simpson_parallel_is_sequential). Qed.
+
+Theorem C15_simpson_branches :
+  simpson_then_parallel = false /\ simpson_else_parallel = true /\ simpson_then_chain = simpson_else_chain /\
+  (forall d, simpson_else_range d = simpson_then_range d) /\ (forall d, range_list (simpson_then_range d) = seq 0 (S d)).
+Proof. exact simpson_branches. Qed.
+
+(* 5'''. every reduction call site of the crate (generated table) is sequential or an instance of one of the theorems above,
+   and the table (sources, bindings, closures) is the pinned one *)
+Theorem C15_call_sites :
+  (map (fun s => (s_fn s, s_source s, site_class s)) reduction_sites = expected_sites /\
+   forallb (fun s => negb (String.eqb (site_class s) "UNCOVERED")) reduction_sites = true) /\
+  map s_detail reduction_sites = expected_details.
+Proof. exact (conj sites_covered sites_pinned). Qed.
+
 (* real sums (count rates, HOM rate) and complex sums (quadrature) are instances *)
 Theorem C15_reduce_real_monoids :
   ((forall x y z : R, (x + (y + z) = x + y + z)%R) /\ (forall x : R, (0 + x = x)%R) /\ (forall x : R, (x + 0 = x)%R)) /\
@@ -83,6 +138,21 @@ Proof. exact (conj Rplus_monoid cplus_monoid). Qed.
 Theorem C15_bridge_trees_admissible : forall t n, bridge_shaped t n -> admissible 1 t n /\ admissible 0 t n.
 Proof. exact bridge_admissible. Qed.
 
+(* rayon's bridge modelled with an explicit steal oracle (Model/C15_Bridge.v: LengthSplitter / Splitter budget, reset on steal):
+   for EVERY thread count, min_len and steal pattern the tree it builds is admissible, so both producers deliver the sequential
+   sequence (2-D: any carrier, bit-exact; 1-D: over the reals, floats within C15_1d_float_bound_partial) *)
+Theorem C15_bridge_any_steals : forall (min_len threads : nat) (steal : steal_oracle),
+  (forall len, bridge_shaped (bridge min_len threads steal len) len) /\
+  (forall T (O : ops T) x0 x1 nx y0 y1 ny,
+     run (prod2d O x0 x1 nx y0 y1 ny) (bridge min_len threads steal (nx * ny)) (root2d nx ny) = Ok (seq2d O x0 x1 nx y0 y1 ny)) /\
+  (forall (s e : R) n, run (prod1d Rops) (bridge min_len threads steal n) (root1d s e n) = Ok (seq1d Rops s e n)).
+Proof.
+  exact (fun min_len threads steal =>
+    conj (bridge_shaped_any min_len threads steal)
+   (conj (fun T O x0 x1 nx y0 y1 ny => run2d_exact O x0 x1 nx y0 y1 ny _ (proj2 (bridge_admissible_any min_len threads steal (nx * ny))))
+         (fun s e n => run1d_exact_real s e n _ (proj1 (bridge_admissible_any min_len threads steal n))))).
+Qed.
+
 Theorem C15_split_at_zero_1d : forall T (O : ops T) p, p_split (prod1d O) p 0 = Panic.
 Proof. exact (@split1d_zero). Qed.
 
@@ -93,12 +163,19 @@ Proof. cbn. repeat split; lia. Qed.
 Print Assumptions C15_2d_exact.
 Print Assumptions C15_1d_exact_real.
 Print Assumptions C15_1d_count_exact.
+Print Assumptions C15_1d_float_bound_partial.
+Print Assumptions C15_1d_float_bound_numbers.
 Print Assumptions C15_len.
 Print Assumptions C15_par_len.
 Print Assumptions C15_enumerate.
 Print Assumptions C15_collect.
 Print Assumptions C15_range_functions.
 Print Assumptions C15_reduce.
+Print Assumptions C15_reduce_enumerate.
+Print Assumptions C15_simpson_parallel_is_sequential.
+Print Assumptions C15_simpson_branches.
+Print Assumptions C15_call_sites.
 Print Assumptions C15_reduce_real_monoids.
 Print Assumptions C15_bridge_trees_admissible.
+Print Assumptions C15_bridge_any_steals.
 Print Assumptions C15_split_at_zero_1d.
